@@ -28,10 +28,14 @@ ACTIONS = ["none", "post_B", "post_C", "post_B_cb", "add_same", "remove_sibling"
 
 
 class Cond:
-    def __init__(self, val):
-        self.val = val
+    """stub condition: a fixed verdict, or (threshold given) a verdict on the argument v the dispatcher hands in"""
+
+    def __init__(self, val, threshold=None):
+        self.val, self.threshold = val, threshold
 
     def evaluate(self, kwargs):
+        if self.threshold is not None:
+            return kwargs.get("v", -99) >= self.threshold
         return self.val
 
 
@@ -77,7 +81,15 @@ def body(S, loop, part):
     prio = {i: S.int("p%d" % i, -10**6, 10**6) for i in range(5)}
     prio[5] = 1
     regv = {1: S.int("rv1", -5, 5), 3: S.int("rv3", -5, 5)}       # slots registered with a kwarg v
-    cond = {2: S.bool("cond2")}                                    # slot 2 has a condition
+    cond_thr = None
+    if part.get("cond_on_args"):
+        # slot 2's condition reads the argument v, which slot 2 also registers: the registered value is what the handler gets,
+        # so it is what the condition must be decided on
+        regv[2] = S.int("rv2", -5, 5)
+        cond_thr = S.int("cond_threshold", -5, 5)
+        cond = {2: regv[2] >= cond_thr}
+    else:
+        cond = {2: S.bool("cond2")}                                # slot 2 has a condition
     trace = []           # ("h", iid, slot, seen_v) | ("cb", iid)
     posts = []           # iid -> dict(ev, parent, pv, cb)
     cur = [None]         # index in trace of the active handler / callback record
@@ -120,7 +132,7 @@ def body(S, loop, part):
             lst = em.registered_handlers[ev]
             for i, rh in enumerate(lst):
                 if rh.key == key.key:
-                    lst[i] = rh._replace(condition=Cond(cond[slot]))
+                    lst[i] = rh._replace(condition=Cond(cond[slot], cond_thr))
         else:
             key = em.add_handler(ev, h, priority=priority, **kw)
         keys[slot] = (key, h)
@@ -311,10 +323,11 @@ def scenarios(tier):
         for a1 in (quick_acts if tier == "quick" else range(nact)):
             if tier == "quick":
                 # h2/h3 actions and the context rotate deterministically over the partitions
-                parts.append(dict(acts=[a0, a1, quick_acts[(a0 + 2 * a1 + 1) % 6], quick_acts[(2 * a0 + a1) % 6]], nact=nact, ctx=ctxs[k % 4], cb_posts=(k % 3 == 0)))
+                parts.append(dict(acts=[a0, a1, quick_acts[(a0 + 2 * a1 + 1) % 6], quick_acts[(2 * a0 + a1) % 6]], nact=nact, ctx=ctxs[k % 4], cb_posts=(k % 3 == 0),
+                                  cond_on_args=(k % 2 == 1)))
                 k += 1
             else:
                 for a2 in range(nact):
-                    parts.append(dict(acts=[a0, a1, a2, (a0 + a1 + a2) % nact], nact=nact, ctx=ctxs[k % 4], cb_posts=(k % 2 == 0), maxdyn=2))
+                    parts.append(dict(acts=[a0, a1, a2, (a0 + a1 + a2) % nact], nact=nact, ctx=ctxs[k % 4], cb_posts=(k % 2 == 0), maxdyn=2, cond_on_args=(k % 3 == 1)))
                     k += 1
     return [Scenario("programs", setup, body, parts, teardown=teardown, part_budget=60 if tier == "quick" else 120, per_path_timeout=30)]
